@@ -174,3 +174,15 @@
   (ite (task.heldby old pid)
     (set.tasks.expires_at old (ite (is-inone (tasks.ttl old)) inone (isome (+ time (ival (tasks.ttl old))))))
     old))
+
+; ---------------------------------------------------------------- set reads (sweeps)
+; each returned record is a present row satisfying the predicate (at most Limit of them)
+(define-fun pred.ReadPromises ((r Row.promises) (time Int)) Bool
+  (and (p.pending r) (not (is-inone (promises.timeout r))) (<= (ival (promises.timeout r)) time)))
+(define-fun pred.ReadSchedules ((r Row.schedules) (time Int)) Bool
+  (and (not (is-inone (schedules.next_run_time r))) (<= (ival (schedules.next_run_time r)) time)))
+(define-fun pred.ReadTasks ((r Row.tasks) (mask Int) (time Int)) Bool
+  (and (not (is-inone (tasks.state r))) (not (= (band (ival (tasks.state r)) mask) 0))
+       (or (and (not (is-inone (tasks.expires_at r))) (<= (ival (tasks.expires_at r)) time))
+           (and (not (is-inone (tasks.timeout r))) (<= (ival (tasks.timeout r)) time)))))
+(define-fun pred.ReadEnqueueableTasks ((r Row.tasks)) Bool (= (tasks.state r) (isome 1)))
